@@ -3325,6 +3325,9 @@ def gen_all(repo):
             elif spec.get("ctx_mode"):          # round 7 (worker T): statement ranges of `HeContext::validate` (tools/rs2lean_ctx.py)
                 import rs2lean_ctx
                 res[name] = rs2lean_ctx.generate(sys.modules[__name__], tr, spec)
+            elif spec.get("gal_mode"):          # round 7 (worker V): plan skeletons of the rotation layer (tools/rs2lean_gal.py)
+                import rs2lean_gal
+                res[name] = rs2lean_gal.generate(sys.modules[__name__], tr, spec)
             else: res[name] = ladder_file(tr, spec) if spec.get("ladder") else tr.run_file(spec)
         except (Unsupported, SystemExit) as ex: res[name] = GenFailed(str(ex))
         except Exception as ex: res[name] = GenFailed("translator error: %s: %s" % (type(ex).__name__, ex))
@@ -3886,6 +3889,9 @@ TABLE_EVALCT += square_tables(EV, CSZ, PLEN, SC_OK, SC_OK_FIRST, _scale_ok)
 
 import rs2lean_ctx as _rs2lean_ctx          # round 7 (worker T): Gen/ContextFns.lean (tables in tools/rs2lean_ctx.py)
 FILES += [("ContextFns.lean", _rs2lean_ctx.SPEC)]
+
+import rs2lean_gal as _rs2lean_gal          # round 7 (worker V): Gen/GaloisPlanFns.lean (tables in tools/rs2lean_gal.py)
+FILES += [("GaloisPlanFns.lean", _rs2lean_gal.SPEC)]
 
 if __name__ == "__main__":
     res = gen_all(sys.argv[1])
